@@ -121,6 +121,7 @@ func (b *bytecode) compile(c *Compiler, expr ast.Expr, env *val.Env) {
 		b.compile(c, e.Obj, env)
 		b.emitOP(OP_OBJ_LOAD)
 		b.emitMediumInt(e.Index)
+		b.emitConst(e.Field.Name)
 
 	default:
 		util.Unreachable()
